@@ -327,6 +327,12 @@ def _plane_scale(tier):
                                            **_pat(em, BATCH3[1]))
                                     c["scale"] = scale
                                     out.append(c)
+                                    if tol == "rel" and posdef is None:
+                                        # and a right-hand side of norm ~1e-9 (purely relative request): tiny is
+                                        # not zero
+                                        c2 = dict(c)
+                                        c2["bscale"] = 1e-9
+                                        out.append(c2)
     return out
 
 
@@ -500,6 +506,8 @@ def build_case(cfg):
         p["A"] = p["A"] * s
         if p["E"] is not None:
             p["E"] = p["E"] * s
+    if cfg.get("bscale") is not None:
+        p["B"] = p["B"] * cfg["bscale"]
     return p
 
 
